@@ -456,14 +456,11 @@ var probeSummary any
 // and turns its results into verdicts.
 func runRealProbe() ([]*worldb.Verdict, any, error) {
 	out := filepath.Join(scratch, "probe.json")
-	cmd := exec.Command(binTest, "-test.run", "^TestRealProbe$", "-test.timeout", "0")
-	cmd.Env = append(os.Environ(), "VERIF_B_PROBE_OUT="+out, "GORACE=halt_on_error=0 log_path="+filepath.Join(scratch, "probe.race"))
+	// bin/realprobe is built WITHOUT the verif tag: it is the interpreter as
+	// shipped, none of the hook files compiled in
+	cmd := exec.Command(filepath.Join(verif, "bin", "realprobe"), out)
 	if b, err := cmd.CombinedOutput(); err != nil {
-		// the race detector may make the test binary exit non-zero; only a
-		// missing result file is trouble
-		if _, serr := os.Stat(out); serr != nil {
-			return nil, nil, fmt.Errorf("%v: %s", err, kit.Clip(string(b), 1500))
-		}
+		return nil, nil, fmt.Errorf("%v: %s", err, kit.Clip(string(b), 1500))
 	}
 	b, err := os.ReadFile(out)
 	if err != nil {
